@@ -235,19 +235,24 @@ def _expected_iterations(when, cold, attempts, now_after):
 
 
 # ---------------------------------------------------------------------------
-def simulate(seed, nstreams, maxrate, amount, think, n_reads, late, abandon_at, mode='uniform'):
+def simulate(seed, nstreams, maxrate, amount, think, n_reads, late, abandon_at, mode='uniform', closing=None):
     """Run real BandwidthLimitedStreams sharing one LeakyBucket under the deterministic scheduler in
     virtual time.  think(i, k) -> seconds before stream i's k-th read; late: extra delay added to
     every sleep; abandon_at: {stream: k} the transfer of that stream fails during its k-th wait, or
     {stream: ('consume', k)}: inside its k-th consume() call (after the loop tested the exception,
     before the bucket answers).  A stream stops reading once its transfer failed (as GetObjectTask
-    does).  `bad_returns`: reads that were refused after the failure and still returned data."""
+    does).  `bad_returns`: reads that were refused after the failure and still returned data.
+    closing: {stream: tail} — after its reads the stream reads `tail` more bytes (below the
+    threshold, so they stay pending) and is closed, as an upload body is: close() sends the pending
+    bytes through the limiter."""
     import io
     from sched import Scheduler
     from shim import Installed
     sch = Scheduler(seed=seed, mode=mode, max_steps=400000)
     grants, refusals, sleeps, errors = [], [], [], []
     bad_returns, refused_after_fail, nconsume = [], {}, {}
+    closed = []
+    closing = closing or {}
     with Installed(sch, modules=['bandwidth']) as sh:
         sh.yield_on_release = False     # the grant / refusal is logged right after consume() returns
         from s3transfer.bandwidth import BandwidthLimitedStream, LeakyBucket, TimeUtils
@@ -275,6 +280,9 @@ def simulate(seed, nstreams, maxrate, amount, think, n_reads, late, abandon_at, 
         class Src:
             def read(self, n):
                 return b'x' * n
+
+            def close(self):
+                pass
 
         class LateTime(TimeUtils):
             def __init__(self, i):
@@ -310,6 +318,14 @@ def simulate(seed, nstreams, maxrate, amount, think, n_reads, late, abandon_at, 
                         if refused_after_fail.get(i):
                             bad_returns.append((i, k, sch.clock))
                         return
+                if i in closing:
+                    try:
+                        st.read(closing[i])
+                        st.close()
+                    except RuntimeError as e:
+                        errors.append((i, sch.clock, str(e), sch.tick()))
+                        return
+                    closed.append((i, sch.clock, sch.tick()))
             return run
         tokens = {}
 
@@ -318,7 +334,7 @@ def simulate(seed, nstreams, maxrate, amount, think, n_reads, late, abandon_at, 
             sch.block_until(lambda: all(t.finished for t in ts), 'join')
         fail = sch.run(main, timeout=60)
     return {'grants': grants, 'refusals': refusals, 'sleeps': sleeps, 'errors': errors, 'fail': fail, 'tokens': tokens,
-            'bad_returns': bad_returns}
+            'bad_returns': bad_returns, 'closed': closed}
 
 
 def oracle(seed, tier):
@@ -348,11 +364,19 @@ def oracle(seed, tier):
             if rng.random() < 0.7:
                 think = lambda i, k: 0.0
         n_reads = rng.randrange(8, 30)
-        sim = simulate(rng.randrange(1 << 30), nstreams, maxrate, amount, think, n_reads, late, abandon_at)
+        closing = {}
+        if rng.random() < 0.5:
+            # upload bodies: some streams end with a short read and are closed while others go on
+            for i in range(nstreams):
+                if rng.random() < 0.6:
+                    closing[i] = rng.choice([1, amount // 4, amount // 2, amount - 1])
+        sim = simulate(rng.randrange(1 << 30), nstreams, maxrate, amount, think, n_reads, late, abandon_at, closing=closing)
         res.evaluations += 1
+        if res.enough():
+            break
         res.hit(kind)
         wit = {'streams': nstreams, 'max_bandwidth': maxrate, 'read_amount': amount, 'traffic': kind, 'reads_per_stream': n_reads,
-               'late_wakeups': late(0, 0) != 0.0 or True, 'abandoned': abandon_at}
+               'late_wakeups': late(0, 0) != 0.0 or True, 'abandoned': abandon_at, 'closed_with_pending_bytes': closing}
         if sim['fail'] is not None:
             res.violation('limiter-hangs', wit, repr(sim['fail']))
             continue
@@ -401,11 +425,13 @@ def oracle(seed, tier):
         live_waiting = {}
         events = sorted([(t, 'r', a, tok, rt, n_) for t, a, tok, rt, n_ in sim['refusals']] +
                         [(t, 'g', a, tok, None, n_) for t, a, tok, n_ in sim['grants']] +
-                        [(t, 'x', 0, sim['tokens'].get(i), None, n_) for i, t, _, n_ in sim['errors']], key=lambda e: e[5])
+                        [(t, 'x', 0, sim['tokens'].get(i), None, n_) for i, t, _, n_ in sim['errors']] +
+                        [(t, 'c', 0, sim['tokens'].get(i), None, n_) for i, t, n_ in sim.get('closed', [])], key=lambda e: e[5])
         for t, k, a, tok, rt, _n in events:
             if k == 'g':
                 live_waiting.pop(tok, None)
-            elif k == 'x':
+            elif k in ('x', 'c'):
+                # the stream raised its transfer's error / returned from close(): it is not waiting any more
                 live_waiting.pop(tok, None)
             else:
                 allowed = (sum(live_waiting.values()) + a) / maxrate
